@@ -121,7 +121,7 @@ class _TextHolder:
 
 def _solve(text, clauses, negs, timeout_s, tactic=None):
     from vlib import bmc
-    return bmc._worker((0, text, clauses, negs, int(timeout_s * 1000) if timeout_s else 0, True, tactic))
+    return bmc._worker((0, text, clauses, negs, int(timeout_s * 1000) if timeout_s else 0, tactic != "py", tactic))
 
 
 class Ctx:
@@ -244,6 +244,21 @@ class Ctx:
                     else:
                         self._after_query(bn, q, res)
 
+    def _cross_check_queries(self, bn, qs):
+        """thorough tier: the cheapest-looking violation query of each bench (shallow frames) is re-decided by the second
+        engine (z3 5.1 wheel, explicit bit-blast/aig/sat pipeline); a disagreement (not a timeout) is inconclusive"""
+        if self.tier != "thorough":
+            return []
+        cand = [q for q in qs if q["kind"] == "violation" and q["lo"] == 0]
+        if not cand:
+            return []
+        q = dict(cand[0])
+        q["kind"] = "cross_check"
+        q["tactic"] = "py"
+        q["timeout"] = 300
+        q["required"] = False
+        return [q]
+
     def _after_stage1(self, bn, res):
         job = self.jobs[bn]
         if res["error"]:
@@ -299,13 +314,26 @@ class Ctx:
                            negs=["RAWBAD!%s!%d" % (b, t) for b in bads for t in range(k)],
                            timeout=job["timeout"]))
         self.obligations += len(qs)
-        return qs
+        self._xq = getattr(self, "_xq", {})
+        xs = self._cross_check_queries(bn, qs)
+        for x in xs:
+            self._xq[(bn, x["name"], x["lo"], x["hi"])] = None
+        return qs + xs
 
     def _after_query(self, bn, q, res):
         result, secs, model, reason = res
         rec = dict(bench=bn, kind=q["kind"], goal=q["name"], frames=[q["lo"], q["hi"]], result=result,
                    solver_s=round(secs, 3))
         job = self.jobs[bn]
+        if q["kind"] == "cross_check":
+            rec["engine"] = "z3 5.1 wheel: simplify/propagate-values/solve-eqs/elim-uncnstr/bit-blast/aig/sat"
+            self.records.append(rec)
+            self._xq[(bn, q["name"], q["lo"], q["hi"])] = result
+            return
+        key = (bn, q["name"], q["lo"], q["hi"])
+        if q["kind"] == "violation" and key in getattr(self, "_xq", {}):
+            self._xq_main = getattr(self, "_xq_main", {})
+            self._xq_main[key] = result
         if result == "unknown" and q["kind"] == "violation" and not q.get("required", True):
             rec["reason"] = reason
             rec["note"] = "beyond the floor depth: not discharged within the time budget (stated bound)"
@@ -393,7 +421,21 @@ class Ctx:
         else:
             self.violations.append((bn, q["name"], rec["frame"], path))
 
+    def _check_cross(self):
+        if getattr(self, "_cross_done", False):
+            return
+        self._cross_done = True
+        n = 0
+        for key, second in getattr(self, "_xq", {}).items():
+            first = getattr(self, "_xq_main", {}).get(key)
+            if first in ("sat", "unsat") and second in ("sat", "unsat"):
+                n += 1
+                if first != second:
+                    self.inconclusive.append("bench %s goal %s: the two solvers disagree (%s vs %s)" % (key[0], key[1], first, second))
+        self.extra["second_solver_agreements"] = n
+
     def finish_records(self):
+        self._check_cross()
         for r in self.records:
             r.pop("_stim", None)
             r.pop("_recs", None)
@@ -442,6 +484,7 @@ class Ctx:
         return path
 
     def verdict(self):
+        self._check_cross()
         seen_kf = set()
         for kf, bn, bad, path in self.known_hits:
             if (kf["id"], bn, bad) in seen_kf:
